@@ -169,8 +169,8 @@ func runSeq(c seqCase) (fail *vh.Failure) {
 	}()
 	pool := namepool.Pool(c.Fmt.format())
 	var held []heldName
-	var released []heldName // zeroed pointers with the id they had
-	live := map[uint64]int{}     // id -> op index of acquisition
+	var released []heldName  // zeroed pointers with the id they had
+	live := map[uint64]int{} // id -> op index of acquisition
 	liveText := map[string]uint64{}
 	everReleased := map[uint64]bool{}
 	doubled := map[uint64]bool{}
